@@ -48,7 +48,8 @@ def main(tier, replay=None):
     for _ in range(12000 if quick else 400000):
         y = rng.choice([1900, 1900, 1901, rng.randint(1900, 2100), rng.randint(1900, 9999)])
         mo, d = rng.randint(1, 12), rng.randint(1, 28)
-        ms = rng.choice([0, 1, 86399999, 43200000, 84375 * rng.randint(0, 1023), rng.randint(0, 86399999), rng.randint(0, 86399999)])
+        ms = rng.choice([0, 1, 86399999, 43200000, 84375 * rng.randint(0, 1023), rng.randint(0, 86399999), rng.randint(0, 86399999),
+                         1000 * rng.randint(0, 86399), 1000 * rng.randint(0, 86399), rng.randint(1, 999)])   # whole seconds, first second of a day
         if (y, mo, d, ms) == (9999, 12, 28, 86399999):
             continue
         obs.append(dates.instant_obs(p, y, mo, d, ms))
